@@ -274,6 +274,9 @@ def case_metrics(H, N):
             n0 = len(m.ctx.tf)
             res[tag] = f()
             marks[tag] = [(v, a) for (fn, _), (v, a) in list(m.ctx.tf.items())[n0:] if fn == 'sqrt']
+        # history: an earlier call with origin alignment must not leak into later plain calls
+        pp.metric.ape(st.clone(), R, st.clone(), E, etype='translation', origin=True)
+        pp.metric.rpe(st.clone(), R, st.clone(), E, etype='translation', origin=True)
         call('ape_same', lambda: pp.metric.ape(st.clone(), R, st.clone(), R.clone(), etype='translation'))
         call('rpe_same', lambda: pp.metric.rpe(st.clone(), R, st.clone(), R.clone(), etype='translation'))
         call('rpe', lambda: pp.metric.rpe(st.clone(), R, st.clone(), E, etype='translation'))
@@ -290,6 +293,8 @@ def case_metrics(H, N):
         a = pp.metric.rpe(st.clone(), R, st.clone(), E)
         b = pp.metric.rpe(st.clone(), Tg @ R, st.clone(), E)
         c = pp.metric.rpe(st.clone(), R, st.clone(), Tg @ E)
+        pp.metric.ape(st.clone(), R, st.clone(), E, origin=True)
+        pp.metric.rpe(st.clone(), R, st.clone(), E, origin=True)
         z = pp.metric.ape(st.clone(), R, st.clone(), R.clone())
         zz = pp.metric.rpe(st.clone(), R, st.clone(), R.clone())
         e = max(abs(a[k].item() - b[k].item()) + abs(a[k].item() - c[k].item()) for k in ('Max', 'RMSE', 'Mean', 'Min'))
